@@ -45,6 +45,19 @@ def older_version(r, entries, base_from, base_to):
             if r.random() < 0.5:
                 n["target"] = "old/" + n["target"]
         pre.append(n)
+    # now and then the older version had another kind of entry at a path (the run may refuse; exit 0 must still mean a mirror)
+    for n in pre:
+        if n["p"] == base_to or r.random() > 0.12:
+            continue
+        if n["k"] == "d":
+            n.update({"k": r.choice(["f", "l", "l"]), "size": 3, "seed": 4, "segs": None, "target": r.choice(["nowhere", "../zz-target-file"])})
+            n["flipped"] = True
+        elif n["k"] == "f" and r.random() < 0.5:
+            n.clear()
+            n.update({"p": None})
+    pre = [n for n in pre if n.get("p")]
+    flipped = {n["p"] for n in pre if n.get("flipped")}
+    pre = [n for n in pre if not any(n["p"].startswith(f + "/") for f in flipped)]
     # parents of skipped entries must exist: drop children whose parent is missing
     have = set()
     out = []
@@ -63,7 +76,7 @@ def older_version(r, entries, base_from, base_to):
 
 
 def gen_cases(tier, seed):
-    n = 520 if tier == "quick" else 12000
+    n = 1500 if tier == "quick" else 15000
     r = random.Random(seed * 7919 + 2)
     for i in range(n):
         driver = ["parfile", "parblock"][i % 2]
@@ -78,6 +91,9 @@ def gen_cases(tier, seed):
                                       kinds=("f", "f", "d", "l"), root_abs="@ROOT@", prefix=name,
                                       max_entries=40)
                 # gen_tree computes link targets relative to the tree root: fix up relative targets
+                for k2 in range(r.randint(0, 2)):
+                    par = r.choice([e["p"] for e in spec if e["k"] == "d" and (e["p"] == name or e["p"].startswith(name + "/"))])
+                    spec.append({"p": par + "/emptydir%d" % k2, "k": "d"})
             elif shape == "emptydir":
                 spec.append({"p": name, "k": "d"})
             elif shape == "file":
